@@ -39,6 +39,13 @@ def full_alphabet(cA, cB):
          [['seed', 3]]]
     if 't2' in (cA, cB):
         A.append([['tempo', 't2', 4.0]])
+    if cA != cB:
+        # routines on different clocks run on different threads in RT: the
+        # order of their actions at one logical instant is not defined, so
+        # programs in which A acts on B (or on B's clock) are generated only
+        # for routines sharing a clock
+        A = [it for it in A if it[0][0] not in (
+            'play', 'pause', 'resume', 'stop', 'wait', 'set', 'tempo')]
     return A
 
 
@@ -90,7 +97,11 @@ def programs(tier, seed):
             [[a, b] for a in alpha for b in alpha]
         three = [[a, b, c] for a in alpha for b in alpha for c in alpha]
         for bi, bbody in enumerate(B_BODIES):
+            if cA != cB and bi in (4, 5):
+                continue
             for b_by_main in (True, False):
+                if cA != cB and not b_by_main:
+                    continue
                 for items in bodies:
                     yield idx, build_prog(cA, cB, items, bbody, b_by_main)
                     idx += 1
@@ -136,8 +147,9 @@ def observe(prog, res, mode):
                     t = (tt - c07.ntp(0.0)) / 2 ** 32
                 sends[str(tag)] = t
     else:
-        for b in res['score'][1:-1]:
-            sends[str(b[1][1])] = b[0]
+        for b in res['score']:
+            if b[1][0] == '/t':
+                sends[str(b[1][1])] = b[0]
     return {'per': per, 'sends': sends, 'status': res['status']}
 
 
